@@ -7,6 +7,7 @@ import (
 	"io"
 	"net/http"
 	"os"
+	"strconv"
 	"strings"
 
 	parser "github.com/shivasurya/code-pathfinder/sourcecode-parser/antlr"
@@ -128,3 +129,70 @@ func cmdGetFiles(args []string) int {
 	fmt.Fprintf(out, "FILES %s\n", hxl(files))
 	return 0
 }
+
+// a transport whose FIRST response breaks off with a read error after `cut` bytes; later responses are complete
+type faultyTransport struct {
+	body []byte
+	cut  int
+	n    *int
+}
+
+type cutReader struct {
+	r    *bytes.Reader
+	left int
+}
+
+func (c *cutReader) Read(p []byte) (int, error) {
+	if c.left <= 0 {
+		return 0, fmt.Errorf("connection reset by peer")
+	}
+	if len(p) > c.left {
+		p = p[:c.left]
+	}
+	n, err := c.r.Read(p)
+	c.left -= n
+	if err == io.EOF {
+		return n, fmt.Errorf("unexpected EOF (connection reset)")
+	}
+	return n, err
+}
+
+func (s faultyTransport) RoundTrip(req *http.Request) (*http.Response, error) {
+	*s.n++
+	var body io.Reader = bytes.NewReader(s.body)
+	if *s.n == 1 {
+		body = &cutReader{bytes.NewReader(s.body), s.cut}
+	}
+	return &http.Response{StatusCode: 200, Status: "200 OK", Body: io.NopCloser(body),
+		Header: http.Header{"Content-Type": []string{"application/json"}}, Request: req, ContentLength: -1}, nil
+}
+
+// bundle-load-faulty <bundle.json> <out> <cut>: the hosted load with the first response cut after <cut> bytes; a load
+// that reports an error is simply tried again (as a user would)
+func cmdBundleLoadFaulty(args []string) int {
+	out, _ := os.Create(args[1])
+	defer out.Close()
+	stdout := os.Stdout
+	devnull, _ := os.OpenFile(os.DevNull, os.O_WRONLY, 0)
+	os.Stdout = devnull
+	defer func() { os.Stdout = stdout }()
+	body, err := os.ReadFile(args[0])
+	if err != nil {
+		fmt.Fprintf(out, "HOSTED error %s\n", hx(err.Error()))
+		return 0
+	}
+	cut, _ := strconv.Atoi(args[2])
+	n := 0
+	http.DefaultTransport = faultyTransport{body, cut, &n}
+	for try := 0; try < 3; try++ {
+		rules, err := cmd.VerifLoadRules("cpf/bundle", true)
+		if err == nil {
+			fmt.Fprintf(out, "HOSTED ok %s\nTRIES %d REQUESTS %d\n", hxl(rules), try+1, n)
+			return 0
+		}
+	}
+	fmt.Fprintf(out, "HOSTED error x\n")
+	return 0
+}
+
+func init() { commands["bundle-load-faulty"] = cmdBundleLoadFaulty }
